@@ -34,11 +34,20 @@ F22_SCENARIO = {"msgs": ["get", "get"], "cuts": [], "close": False, "lookahead":
                 "send_plan": [["err", errno.EHOSTUNREACH]]}
 F22_IO_SCENARIO = {"msgs": ["get", "get"], "cuts": [], "close": False, "lookahead": 0, "workers": 1,
                    "send_plan": [0, ["err", errno.EHOSTUNREACH]]}
+# Directed tiny scenarios for bounded-exhaustive exploration: a closing exchange (Connection: close,
+# HTTP/1.0, error response, application failure) with more requests behind it -- in the same read,
+# or in later reads (lookahead >= 1 lets the I/O thread read them while the first is served) -- and
+# a client slow enough that the closing response needs several handle_write rounds.
 TINY = [
-    {"msgs": ["close", "get"], "cuts": [], "close": False, "lookahead": 0, "workers": 1},
-    {"msgs": ["v10", "get"], "cuts": [53], "close": False, "lookahead": 1, "workers": 2},
-    {"msgs": ["bad", "get"], "cuts": [], "close": True, "lookahead": 0, "workers": 1},
-    {"msgs": ["raise", "get", "get"], "cuts": [], "close": False, "lookahead": 2, "workers": 2},
+    ({"msgs": ["close", "get"], "cuts": ["boundaries"], "close": False, "lookahead": 1, "workers": 1}, "locks", 2),
+    ({"msgs": ["v10", "get", "get"], "cuts": ["boundaries"], "close": False, "lookahead": 2, "workers": 2}, "locks", 1),
+    ({"msgs": ["close", "get"], "cuts": [], "close": False, "lookahead": 0, "workers": 1}, "locks", 2),
+    ({"msgs": ["bad", "get"], "cuts": ["boundaries"], "close": True, "lookahead": 5, "workers": 1}, "locks", 1),
+    ({"msgs": ["raise", "get"], "cuts": ["boundaries"], "close": False, "lookahead": 1, "workers": 1}, "attrs", 1),
+    ({"msgs": ["close", "get"], "cuts": ["boundaries"], "close": False, "lookahead": 0, "workers": 1,
+      "send_plan": [7, 0, 7, 0, 7, 0, 7, 0]}, "locks", 1),
+    ({"msgs": ["v10", "get"], "cuts": ["boundaries"], "close": False, "lookahead": 1, "workers": 1,
+      "send_plan": [40, 0, 1, 0, 40, 0]}, "attrs", 0),
 ]
 
 
@@ -196,6 +205,9 @@ def run(ctx):
     f22_io = [False]
 
     def explore_case(sc, maxpre, limit, gran="locks"):
+        sc = dict(sc)
+        sc.setdefault("max_steps", 500)
+
         def run_case(prefix):
             w, v = run_one(sc, schedule=prefix, granularity=gran)
             labs = account(sc, w, v, "explore", gran)
@@ -207,18 +219,18 @@ def run(ctx):
             return w.sched
         return H.explore(run_case, maxpre, limit=limit)
 
-    r = explore_case(F22_IO_SCENARIO, 2, 2500 if thorough else 700)
+    r = explore_case(F22_IO_SCENARIO, 2, 2500 if thorough else 500)
     samples.append({"scenario": F22_IO_SCENARIO, "policy": "explore<=2 preemptions", "runs": r["runs"],
                     "per_level": r["per_preemption_level"], "f22_io_reproduced": f22_io[0]})
-    for sc in TINY:
-        r = explore_case(sc, 2, 4000 if thorough else 450)
-        samples.append({"scenario": sc, "policy": "explore<=2 preemptions", "runs": r["runs"],
-                        "per_level": r["per_preemption_level"], "truncated": r["truncated"]})
+    for sc, gran, maxpre in TINY:
+        r = explore_case(sc, maxpre + (1 if thorough else 0), 6000 if thorough else 250, gran)
+        samples.append({"scenario": sc, "policy": "explore<=%d preemptions/%s" % (maxpre + (1 if thorough else 0), gran),
+                        "runs": r["runs"], "per_level": r["per_preemption_level"], "truncated": r["truncated"]})
 
     # 2. K-chan + monitor on generated scenarios, attribute granularity
-    n_attr = 6000 if thorough else 1000
+    n_attr = 6000 if thorough else 700
     for n in range(n_attr):
-        sc = H.gen_scenario(rng)
+        sc = H.gen_race_scenario(rng) if rng.random() < 0.35 else H.gen_scenario(rng)
         for k in sc["msgs"]:
             msg_kinds[k] = msg_kinds.get(k, 0) + 1
         pk = rng.choice(["default", "random", "random", "pct1", "pct2", "pct3"])
@@ -232,9 +244,9 @@ def run(ctx):
             samples.append({"scenario": sc, "policy": pk, "labels": labs[:14], "verdict": v})
 
     # 3. monitor on generated scenarios, lock granularity (coarser steps, more schedules)
-    n_lock = 12000 if thorough else 1500
+    n_lock = 12000 if thorough else 1200
     for n in range(n_lock):
-        sc = H.gen_scenario(rng)
+        sc = H.gen_race_scenario(rng) if rng.random() < 0.35 else H.gen_scenario(rng)
         pk = rng.choice(["random", "random", "pct1", "pct2", "pct3"])
         w, v = run_one(sc, policy=H.make_policy(rng, pk, est=60), granularity="locks")
         labs = account(sc, w, v, pk, "locks")
